@@ -726,6 +726,7 @@ def check_builder_semantics(ctx, led, rule="C16.semantic"):
             def run_builder(domain):
                 space = Space()
                 ev = Evaluator(ctx, space)
+                ev.regex_on_tables = True  # a regex applied to the answers is evaluated on the representative answers
                 ev.retry_loops = True
                 ev.keep_pieces = True
                 ev.global_overrides = {("interactive", "string_input"): Builtin("input")}
